@@ -923,15 +923,17 @@ Theorem loop_update_wf H fuel (sl : slots) (st : state) :
 Proof.
   intros Hw Hwf. pose proof (swf_of_wellformed _ _ Hw) as Hs.
   unfold loop_update. destruct (Nat.eqb (count_ops sl) 0); [exact Hwf|].
-  cbn [all_out_r]. intros iN _.
-  set (p := nth (N.to_nat iN mod count_ops sl) (occupied sl) 0).
-  destruct (get_op sl p) as [o|] eqn:Ho; [|exact I].
-  destruct (Nat.eqb (length (o_vars o)) 0); [exact Hwf|].
-  cbn [all_out_r]. intros vN HvN b.
-  set (leg := (N.to_nat vN, if b then Inputs else Outputs)).
-  assert (Hleg : leg_ok sl p leg) by (exists o; split; [exact Ho|unfold leg; cbn [fst]; lia]).
+  destruct (Nat.eqb (length (var_slots sl)) 0); [exact Hwf|].
+  cbn [all_out_r]. intros rN _.
+  set (pv := nth (N.to_nat rN mod length (var_slots sl)) (var_slots sl) (0, 0)).
+  destruct (get_op sl (fst pv)) as [o|] eqn:Ho; [|exact I].
+  destruct (Nat.ltb (snd pv) (length (o_vars o))) eqn:Hlt; [|exact I].
+  apply Nat.ltb_lt in Hlt.
+  cbn [all_out_r]. intros b.
+  set (leg := (snd pv, if b then Inputs else Outputs)).
+  assert (Hleg : leg_ok sl (fst pv) leg) by (exists o; split; [exact Ho|unfold leg; cbn [fst]; lia]).
   apply loop_steps_wf; try assumption.
-  now rewrite (T_T sl p leg o Ho).
+  now rewrite (T_T sl (fst pv) leg o Ho).
 Qed.
 
 Corollary loop_update_keeps_worldline H fuel sl st p sl' st' :
